@@ -414,7 +414,35 @@ def overlaps(check, prog):
         it = Interp(prog, max_depth=1, opaque=[cd])
         res = it.analyze(q)
         lps = pair_loop(prog, q, it)
-        ok = len(lps) == 2
+        own_lps = lps
+        # the pair enumeration may live in a generator method of the class: then
+        # that generator is the subject, and it must yield (i, j, member i, member j)
+        via = None
+        if len(lps) == 1 and lps[0]['iter'][0] == 'call' and \
+                isinstance(lps[0]['iter'][1], str) and lps[0]['iter'][1].startswith(SP + '.'):
+            via = lps[0]['iter'][1]
+        elif len(lps) == 1 and lps[0]['iter'][0] == 'call' and \
+                isinstance(lps[0]['iter'][1], tuple) and lps[0]['iter'][1][0] == 'attr' \
+                and lps[0]['iter'][1][1] == sym('self') and \
+                prog.lookup(SP, lps[0]['iter'][1][2]):
+            via = SP + '.' + lps[0]['iter'][1][2]
+        gen_ok = True
+        if via is not None:
+            itg = Interp(prog, max_depth=0)
+            itg.analyze(via)
+            lps = pair_loop(prog, via, itg)
+            ys = [e for e in itg.effects if e['kind'] == 'yield']
+            scg = intern(('attr', sym('self'), 'scatterers'))
+            gen_ok = len(ys) == 1 and ys[0]['value'][0] == 'tuple' and \
+                len(ys[0]['value'][1]) == 4
+            if gen_ok:
+                yi, yj, y1, y2 = ys[0]['value'][1]
+                gen_ok = yi[0] == 'idx' and yi[2] == num(0) and yi[1][0] == 'elem' and \
+                    yi[1][1] == ('call', 'enumerate', (scg,), ()) and \
+                    y1 == ('elem', scg, yi[1][2]) and yj[0] == 'elem' and \
+                    yj[1][0] == 'call' and yj[1][1] == 'range' and \
+                    y2 == ('idx', scg, yj)
+        ok = len(lps) == 2 and gen_ok
         outer = inner = None
         if ok:
             for l in lps:
@@ -434,7 +462,7 @@ def overlaps(check, prog):
         check.require(ok, 'K4-all-pairs', 'Spheres.' + m,
                       'every pair i < j is visited (j in range(i+1, n))', loc,
                       fail_detail='loops: %s' % [show(l['iter'])[:80] for l in lps])
-        info[m] = (it, res, lps, loc)
+        info[m] = (it, res, own_lps, loc)
     # overlaps: condition of the append
     it, res, lps, loc = info['overlaps']
     app = [e for e in it.effects if e['kind'] == 'mutcall' and e['method'] == 'append']
@@ -703,8 +731,9 @@ def index_background(check, prog):
         ones = [x for x in subterms(init) if x[0] == 'call' and x[1] == 'numpy.ones_like'
                 and x[2] and x[2][0] == dom]
         ok = len(ones) == 1 and Canon().equal(init, intern(('bin', '*', ones[0], bg)))
-        ok = ok and v[5] == ('call', 'enumerate', (
-            ('call', 'holopy.core.utils.ensure_array', (('attr', me, 'n'),), ()),), ())
+        ok = ok and v[5][0] == 'call' and v[5][1] == 'enumerate' and v[5][2] and \
+            v[5][2][0] == ('call', 'holopy.core.utils.ensure_array',
+                           (('attr', me, 'n'),), ())
     check.require(ok, 'K3-domain-numbering', 'Scatterer.index_at background',
                   'points outside every domain get the background index; the domains '
                   'are numbered along ensure_array(self.n)', prog.loc(q, fd),
